@@ -154,6 +154,16 @@ def families(tier, seed):
     return fams
 
 
+def _twin_point_plane():
+    """mutant: intersection(Point, Plane) is always None"""
+    import sys as _sys
+    it = _sys.modules['Geometry3D.calc.intersection']
+    it.inter_point_plane = lambda pnt, pln: None
+
+
+TWINS = {'intersection(Point, Plane) -> None': (r'^Point-Segment-Plane/', _twin_point_plane)}
+
+
 META = dict(
     title='algebra of intersection',
     level_text=('Bounded symbolic model checking of nested intersection() calls on the library\'s own (symbolic, non-lattice) intermediate results: operands a, b '
